@@ -339,11 +339,11 @@ func (p *ProtocolCartesian[X0, X1, W0, W1, A0, A1, S0, S1, Z0, Z1]) RunSimulator
 	z.E1 = make([]byte, p.challengeBytesLength)
 	subtle.XORBytes(z.E1, challengeBytes, z.E0)
 
-	a.A0, z.Z0, err = p.sigma0.RunSimulator(statement.X0, z.E0)
+	a.A0, z.Z0, err = p.sigma0.RunSimulator(statement.X0, z.E0[:p.sigma0.GetChallengeBytesLength()])
 	if err != nil {
 		return nil, nil, errs.Wrap(err).WithMessage("cannot run simulator")
 	}
-	a.A1, z.Z1, err = p.sigma1.RunSimulator(statement.X1, z.E1)
+	a.A1, z.Z1, err = p.sigma1.RunSimulator(statement.X1, z.E1[:p.sigma1.GetChallengeBytesLength()])
 	if err != nil {
 		return nil, nil, errs.Wrap(err).WithMessage("cannot run simulator")
 	}
